@@ -9,6 +9,7 @@ import (
 	"context"
 	"encoding/json"
 	"fmt"
+	"math/big"
 	"os"
 	"runtime"
 	"strings"
@@ -119,7 +120,7 @@ func getRaceEnv() *raceEnv {
 }
 
 var c20Topics = func() [][][]common.Hash {
-	t := func(i int) common.Hash { return common.BigToHash(common.Big1.SetUint64(uint64(0xa0 + i))) }
+	t := func(i int) common.Hash { return common.BigToHash(new(big.Int).SetUint64(uint64(0xa0 + i))) }
 	a, b := t(0), t(1)
 	return [][][]common.Hash{
 		nil, {{a}}, {{a}, {b}}, {nil, {b}}, {{a}, nil, {t(2)}}, {nil, nil, nil, {t(3)}}, {{a, b}, nil}, {nil, {a, b}, nil, nil},
